@@ -1,2 +1,49 @@
-From HS Require Import Base.Prelude Model.Json.
-Theorem C06_placeholder : True. Proof. exact I. Qed.
+(* C06 - the JSON writer emits well-formed Haystack JSON that denotes the grid.
+   Statements only; proofs in Proofs/JsonP.v.  Model/Json.v `jdump` is the
+   isinstance ladder of jsondumper.dump_scalar, `jdump_grid` the layout of
+   _dump_grid_to_json; "valid JSON" is established on every case by json.loads
+   in the correspondence check (the model works on trees).
+   PARTIAL: conformance of the whole output against a grammar relation is not
+   proved; what is proved is the shape, the per-kind prefix / lexical form and
+   (Props/C02.v) that the own reader recovers every scalar.  The independent
+   reader of the property is run by the harness. *)
+From Coq Require Import String.
+From HS Require Import Base.Prelude Gen.JsonData Model.Value Model.Json Proofs.JsonP.
+Open Scope N_scope.
+
+(* {meta:{ver,...}, cols:[...], rows:[...]} in that order, ver present, at least one column *)
+Theorem C06_shape : forall fuel ver meta cols rows j,
+  jdump_grid fuel ver meta cols rows = Ok j ->
+  exists m cs rs,
+    j = JObj [(s_ "meta", JObj m); (s_ "cols", JArr cs); (s_ "rows", JArr rs)] /\
+    assoc (s_ "ver") m = Some (JStr ver) /\ cols <> [].
+Proof. exact jdump_grid_shape. Qed.
+
+(* every scalar carries the type prefix of its kind and its payload in that kind's lexical form *)
+Theorem C06_lexical : forall pre3,
+  (forall s, jdump_scalar pre3 (VStr s) = Ok (JStr (115 :: 58 :: s))) /\
+  (forall s, jdump_scalar pre3 (VUri s) = Ok (JStr (117 :: 58 :: s))) /\
+  (forall s, jdump_scalar pre3 (VBin s) = Ok (JStr (98 :: 58 :: s))) /\
+  (forall n d, jdump_scalar pre3 (VRef n (Some d)) = Ok (JStr (114 :: 58 :: n ++ 32 :: d))) /\
+  (forall y m d, jdump_scalar pre3 (VDate y m d) = Ok (JStr (100 :: 58 :: iso_date y m d))) /\
+  (forall h mi s us, jdump_scalar pre3 (VTime h mi s us) = Ok (JStr (104 :: 58 :: iso_time h mi s us))) /\
+  (forall la lo, jdump_scalar pre3 (VCoord la lo) = Ok (JStr (99 :: 58 :: la ++ 44 :: lo))) /\
+  jdump_scalar pre3 VMarker = Ok (JStr marker_str) /\
+  jdump_scalar pre3 VNull = Ok JNull /\
+  (forall b, jdump_scalar pre3 (VBool b) = Ok (JBool b)) /\
+  jdump_scalar pre3 VRemove = Ok (JStr (if pre3 then remove2_str else remove3_str)).
+Proof. exact jdump_prefixes. Qed.
+
+Theorem C06_ref_plain : forall pre3 n, jdump_scalar pre3 (VRef n None) = Ok (JStr (114 :: 58 :: n)).
+Proof. exact jdump_ref_plain. Qed.
+
+(* non-finite numbers are spelled n:INF, n:-INF, n:NaN *)
+Theorem C06_nonfinite : forall pre3 z j,
+  jdump_scalar pre3 (VNum NkInf z j None) = Ok (JStr (s_ "n:INF")) /\
+  jdump_scalar pre3 (VNum NkNegInf z j None) = Ok (JStr (s_ "n:-INF")) /\
+  jdump_scalar pre3 (VNum NkNaN z j None) = Ok (JStr (s_ "n:NaN")).
+Proof. exact jdump_nonfinite. Qed.
+
+(* 3.0-only kinds are refused under a pre-3.0 version instead of being emitted *)
+Theorem C06_gate : forall v, is_v3_only v = true -> jdump_scalar true v = Raise ValueError.
+Proof. exact jdump_gate. Qed.
